@@ -62,14 +62,14 @@ Definition dialog_step (maxr : Z) (p : phase) (e : ev) : option phase :=
   | Some (r :: rs) =>
       (* after 354: only the final reply for the next recipient may follow *)
       match e with
-      | Deliver r' _ _ =>
+      | Deliver r' _ _ | Refuse r' _ =>
           if str_eqb r r' then Some (match rs with [] => end_tx p | _ => await p rs end) else None
       | Reply TDataErrEof _ _ => Some p   (* the stream ended inside the message: nothing is owed *)
       | _ => None
       end
   | None =>
       match e with
-      | Deliver _ _ _ => None
+      | Deliver _ _ _ | Refuse _ _ => None
       | Reply TLhlo code _ => if N.eqb code 250 then Some (set_greeted p) else Some p
       | Reply TMail code _ =>
           if N.eqb code 250 then (if greeted p && negb (in_tx p) then Some (set_tx p) else None)
@@ -85,8 +85,6 @@ Definition dialog_step (maxr : Z) (p : phase) (e : ev) : option phase :=
           else if N.eqb code 503 then (if in_tx p && nonempty (accepted p) then None else Some p)
           else Some p
       | Reply TRset code _ => if N.eqb code 250 then Some (end_tx p) else Some p
-      | Reply TDataErrSize _ _ => None   (* a data-phase reply not tied to a recipient *)
-      | Reply TDataErrMsg _ _ => None
       | Reply _ _ _ => Some p
       end
   end.
@@ -104,7 +102,7 @@ Definition dialog_ok (maxr : Z) (evs : list ev) : bool :=
 Definition tag_eqb (a b : tag) : bool :=
   match a, b with
   | TLhlo, TLhlo | TMail, TMail | TRcpt, TRcpt | TData, TData
-  | TDataErrSize, TDataErrSize | TDataErrMsg, TDataErrMsg | TDataErrEof, TDataErrEof | TRset, TRset
+  | TDataErrEof, TDataErrEof | TRset, TRset
   | TNoop, TNoop | TQuit, TQuit | TVrfy, TVrfy | THelp, THelp | TUnknown, TUnknown => true
   | _, _ => false
   end.
@@ -112,6 +110,7 @@ Definition ev_eqb (a b : ev) : bool :=
   match a, b with
   | Reply t c x, Reply t' c' x' => tag_eqb t t' && N.eqb c c' && str_eqb x x'
   | Deliver r d o, Deliver r' d' o' => str_eqb r r' && str_eqb d d' && Bool.eqb o o'
+  | Refuse r c, Refuse r' c' => str_eqb r r' && N.eqb c c'
   | _, _ => false
   end.
 Fixpoint evs_eqb (a b : list ev) : bool :=
@@ -122,12 +121,11 @@ Fixpoint evs_eqb (a b : list ev) : bool :=
   end.
 
 (** [e] is a final reply for recipient [r] about the octets [d]: a delivery
-    reply naming r for exactly d, or a refusal of the message (which carries
-    no recipient and is counted for whichever recipient is due) *)
+    reply naming r for exactly d, or a refusal of the message for r *)
 Definition final_for (d : str) (r : str) (e : ev) : bool :=
   match e with
   | Deliver r' d' _ => str_eqb r r' && str_eqb d d'
-  | Reply TDataErrSize _ _ | Reply TDataErrMsg _ _ => true
+  | Refuse r' _ => str_eqb r r'
   | _ => false
   end.
 Fixpoint finals (d : str) (rs : list str) (evs : list ev) : option (list ev) :=
@@ -160,7 +158,7 @@ Section Domain.
     match ls with
     | [] => true
     | l :: ls' =>
-        (match m with MCmd => all_ascii l | MData _ _ => true end) &&
+        (match m with MCmd => all_ascii l | MData _ => true end) &&
         (let '(s', m', _, q) := step accepts delivers c s m l in
          if q then true else cmd_lines_ascii c s' m' ls')
     end.
